@@ -97,6 +97,7 @@ type spec struct {
 	ZeroAt       int    `json:"z"`  // offset before which exactly one (0,nil) read is inserted; -1 none
 	ZeroBudget   int    `json:"zb"` // tape-placed (0,nil) reads
 	Second       bool   `json:"2"`  // a second call with the same codec instance (alias check)
+	ErrOnce      bool   `json:"eo"` // the failing reader reports its error once and io.EOF afterwards
 	ErrKind      int    `json:"ek"` // which error value the failing reader returns: 0 a private one, 1 io.ErrUnexpectedEOF, 2 one that wraps io.EOF
 }
 
@@ -173,6 +174,7 @@ func drawSpec(t *kernel.Tape) spec {
 	}
 	sp.Second = t.Choose(3, "second-call") == 1
 	sp.ErrKind = t.Weighted("read-error-value", 3, 1, 1)
+	sp.ErrOnce = t.Bool(4, "read-error-reported-once")
 	return sp
 }
 
@@ -317,6 +319,7 @@ func (c *run) newInput(name, tag string, full []byte, closable bool) *input {
 			st.Term = fmt.Errorf("connection reset before the end: %w", io.EOF)
 			c.env.Fault("read-error-wraps-io.EOF")
 		}
+		st.ErrOnce = sp.ErrOnce
 		in.faulty = true
 	}
 	st.TermWithData = sp.TermWithData
